@@ -2,6 +2,8 @@
 import z3
 from ..harness import *
 from ..reference import semantics as sem
+from ..wlayer import PublicOb
+from ..tlayer import digit
 
 BIN = ['Add', 'Subtract', 'Multiply', 'Divide', 'Modulo', 'Pow']
 UN = ['Negative', 'Abs', 'Floor', 'Ceil', 'Truncate', 'Round', 'Sqrt']
@@ -32,12 +34,34 @@ def obligations(ctx):
                 mid = sem.f64_ref(inner, iv)[0][1][2]
                 return sem.f64_ref(outer, [mid] if outer_un else [mid, v[-1]])
             obs.append(EvalArm('C05', 'f64', '%s(%s)' % (outer, inner), shape, ref, oc=oc, label='f64/%s(%s)/%s' % (outer, inner, 'dbg' if oc else 'rel')))
+        # W: the same statement end to end (mod.rs, tokenizer, parser, evaluator from MIR) on templates with an arbitrary placeholder (any double,
+        # incl. NaN, infinities and signed zeros) the tree the parser builds is evaluated node by node as written
+        tag = 'dbg' if oc else 'rel'
+        W = {'@+@': ('Add', 'p', 'p'), '@-@': ('Subtract', 'p', 'p'), '-(@-@)': ('Negative', ('Subtract', 'p', 'p')), '-@': ('Negative', 'p'), '-(-@)': ('Negative', ('Negative', 'p')), '-(@+@)': ('Negative', ('Add', 'p', 'p')),
+             '-(@*@)': ('Negative', ('Multiply', 'p', 'p')), '@*@': ('Multiply', 'p', 'p'), '@/@': ('Divide', 'p', 'p'), '@%@': ('Modulo', 'p', 'p'), '@^@': ('Pow', 'p', 'p'), 'abs(-@)': ('Abs', ('Negative', 'p')), '-abs(@)': ('Negative', ('Abs', 'p')),
+             '@-@-@': ('Subtract', ('Subtract', 'p', 'p'), 'p'), '@-(@-@)': ('Subtract', 'p', ('Subtract', 'p', 'p')), 'trunc(@)': ('Truncate', 'p'), 'floor(-@)': ('Floor', ('Negative', 'p')), 'ceil(@)': ('Ceil', 'p'), 'round(@)': ('Round', 'p'),
+             'sqrt(@)': ('Sqrt', 'p'), '@+@*@': ('Add', 'p', ('Multiply', 'p', 'p')), '(@+@)*@': ('Multiply', ('Add', 'p', 'p'), 'p'), '@*@+@': ('Add', ('Multiply', 'p', 'p'), 'p'), '@/(@-@)': ('Divide', 'p', ('Subtract', 'p', 'p')),
+             '-(@/@)': ('Negative', ('Divide', 'p', 'p')), '@*-@': ('Multiply', 'p', ('Negative', 'p'))}
+        for text, shape in W.items():
+            chars = [ord(ch) for ch in text]
+
+            def ref(cs, ph, shape=shape):
+                dv = None
+
+                def ev(sh):
+                    if sh == 'p': return ph
+                    if sh == 'd': return dv
+                    args = [ev(x) for x in sh[1:]]
+                    return sem.f64_ref(sh[0], args)[0][1][2]
+                top = [ev(x) for x in shape[1:]]
+                return sem.f64_ref(shape[0], top)
+            obs.append(PublicOb('C05', 'f64', chars, ref, 'f64/W/%s/%s' % (text, tag), oc=oc, limits={'steps': 8000, 'timeout_ms': 60000}))
     return obs
 
 
 def run(ctx):
     results = run_obligations(ctx, obligations(ctx))
-    bounds = dict(layer='E: eval_f64::ast::eval on one node and on two nested nodes, every leaf an arbitrary double (all 2^64 bit patterns, NaNs identified)',
+    bounds = dict(layer='E: eval_f64::ast::eval on one node and on two nested nodes, every leaf an arbitrary double (all 2^64 bit patterns, NaNs identified); W: eval_f64 end to end on 26 templates of one to three operators over an arbitrary placeholder',
                   configurations=['overflow-checks=on'] + (['overflow-checks=off'] if ctx.tier == 'thorough' else []))
     outside = ['that Rust `+ - * /` on f64 are the IEEE operations and `%`, powf are the C library fmod/pow is the language contract (trusted; every path is replayed natively)',
                'pi and e as nearest doubles are decided at the parser layer (C10/C04 token-stream checks)']
